@@ -356,7 +356,7 @@ theorem C13_aux_toy_encRest (s : ToyState) (xs : List Bytes) :
 
 /-- the law is satisfiable: the store-codec of the line driver obeys it (so the theorems below
 are not vacuous) -/
-theorem toy_lossless : Lossless toyCodec toyDecode := by
+theorem C13_toy_lossless : Lossless toyCodec toyDecode := by
   intro xs
   rw [C13_aux_toy_encRest]
   simp [toyCodec, toyDecode]
@@ -388,7 +388,7 @@ theorem C13_stream_lossless_code (cd : Coding) (body : List BodyEv) (joins : Lis
     (hb : hasErr body = false) :
     toyDecode (outChunks (drive toyCodec (fuelFor (initEnc toyCodec (.encode cd)) body joins)
         (initEnc toyCodec (.encode cd)) body joins)).flatten = some (chunksOf body).flatten :=
-  (C13_stream_lossless Encoder.inPlaceCode toyCodec toyDecode toy_lossless cd body joins hb _ (Nat.le_refl _)).1
+  (C13_stream_lossless Encoder.inPlaceCode toyCodec toyDecode C13_toy_lossless cd body joins hb _ (Nat.le_refl _)).1
 
 /-- **C13_terminates**: from *any* encoder state, for any body script (including failing ones)
 and any schedule, the stream ends — `Ready(None)` or an error — within
@@ -680,7 +680,7 @@ def DecLossless (d : DCodec σ) (E : Bytes → Bytes) : Prop :=
   ∀ (orig : Bytes) (xs : List Bytes), xs.flatten = E orig → decRest d d.init xs = some orig
 
 /-- the pass-through "decompressor" obeys the law for the identity coding (non-vacuity) -/
-theorem idDCodec_lossless :
+theorem C13_idDCodec_lossless :
     DecLossless (σ := Unit) ⟨(), fun _ b => some (b, ()), fun _ => some []⟩ id := by
   intro orig xs h
   have : ∀ (xs : List Bytes) (u : Unit),
